@@ -259,6 +259,15 @@ class Models:
                          and f.ret.replace(' ', '') == dst.replace(' ', '')]
                 if len(cands) == 1:
                     return ('push', cands[0], argv)
+                v = d(argv[0])
+                norm = lambda t: re.sub(r'\b\w+::', '', t.replace(' ', ''))
+                if re.match(r'^[A-Z]\w?$', src) and v[0] == 'f' and not re.match(r'^(f64|f32|[A-Z])$', norm(dst)):
+                    # generic source type instantiated by the caller with a float: the crate-local `From<T>` impl producing the target type
+                    cands = [f for f in m.byname.get('from', []) if f.args and re.match(r'^[A-Z]$', f.args[0][1].strip()) and norm(f.ret) == norm(dst)]
+                    if len(cands) == 1:
+                        self.note('Into::into on a generic source instantiated with the element type: crate-local From<T> for %s' % norm(dst))
+                        return ('push', cands[0], argv)
+                    raise Stuck('Into::into from a generic source into %s: no unique crate-local From impl' % dst)
             v = d(argv[0])
             if v[0] in ('f', 'i'):
                 return one(v)
